@@ -3,8 +3,10 @@
    projection the harness printed for the implementation:
      E: id ok <message> <info> <code> <description | ?>     or  id P
      F: id <text | ?>            (? = format outside the modelled subset of fmt)
-     M/D: id <class> <address>   or  id P                                                  *)
+     M/D: id <class> <address>   or  id P
+     H: id <observations of the history, one per op>   (several clients, see clients.go)      *)
 let table = ref []      (* reversed while reading *)
+let defaults = ref []   (* defaultDCList, reversed while reading (keys unique: order irrelevant) *)
 let cat = ref []
 let origin = bytes_of_hex "76657269662d6f726967696e"   (* "verif-origin" *)
 
@@ -23,6 +25,11 @@ let z_of_string (s : string) : z =
 
 let string_of_bytes (l : n list) : string =
   String.concat "" (List.map (fun x -> String.make 1 (Char.chr (int_of_n x))) l)
+
+let bytes_of_string (s : string) : n list =
+  List.init (String.length s) (fun i -> n_of_int (Char.code s.[i]))
+
+let rec nat_of_int (i : int) : nat = if i <= 0 then O else S (nat_of_int (i - 1))
 
 let string_of_z (v : z) : string = string_of_bytes (dec v)
 
@@ -58,7 +65,7 @@ let () =
     | "#row" :: p :: s :: k :: _ ->
       table := { e_prefix = bytes_of_hex p; e_suffix = bytes_of_hex s; e_kind = kind_of k } :: !table
     | "#msg" :: k :: v :: _ -> cat := (bytes_of_hex k, bytes_of_hex v) :: !cat
-    | "#dc" :: _ -> ()
+    | "#dc" :: id :: addr :: _ -> defaults := (z_of_string id, bytes_of_hex addr) :: !defaults
     | "E" :: id :: code :: text :: _ ->
       let tbl = List.rev !table in
       (match to_native tbl !cat (z_of_string code) (bytes_of_hex text) with
@@ -83,4 +90,45 @@ let () =
        | Ok a -> Printf.printf "%s\t%s\n" id (show_action a)
        | Err -> Printf.printf "%s\tERR\n" id
        | Panic -> Printf.printf "%s\tP\n" id)
+    | "H" :: id :: ops :: _ ->
+      let w = ref [] in
+      let nclients () = List.length !w in
+      let obs = List.map (fun op ->
+          let rest = String.sub op 1 (String.length op - 1) in
+          match op.[0] with
+          | 'N' ->
+            let a = bytes_of_string ("verif-origin-" ^ string_of_int (nclients ())) in
+            w := fst (cstep !defaults !w (NewClient a)); "n"
+          | 'S' ->
+            let i = String.index rest ':' in
+            let c = int_of_string (String.sub rest 0 i) in
+            w := fst (cstep !defaults !w (SetDC (nat_of_int c, parse_dcs (String.sub rest (i + 1) (String.length rest - i - 1)))));
+            "s"
+          | 'T' ->
+            let c = int_of_string rest in
+            let (_, t) = List.nth !w c in
+            let keys = List.fold_left (fun acc (k, _) -> if List.mem k acc then acc else k :: acc) [] t in
+            let parts = ref [] in
+            for id = 12 downto -1 do
+              match dc_lookup (z_of_int id) t with
+              | Some a -> parts := (string_of_int id ^ "=" ^ hex_of_bytes a) :: !parts
+              | None -> ()
+            done;
+            Printf.sprintf "t:%d;%s" (List.length keys) (String.concat "," !parts)
+          | 'P' ->
+            (match String.split_on_char ':' rest with
+             | c :: msg :: info ->
+               let c = int_of_string c in
+               let (w', r) = cstep !defaults !w (Process (nat_of_int c, bytes_of_hex msg, parse_info (String.concat ":" info))) in
+               w := w';
+               let addr = fst (List.nth !w c) in
+               (match r with
+                | Some (Ok (Switch _)) -> "switch," ^ hex_of_bytes addr
+                | Some (Ok NoSuchDC) -> "nodc," ^ hex_of_bytes addr
+                | Some (Ok Return) -> "self," ^ hex_of_bytes addr
+                | Some Panic -> "P"
+                | _ -> "ERR")
+             | _ -> failwith "bad P op")
+          | _ -> failwith "bad op") (String.split_on_char ' ' ops) in
+      Printf.printf "%s\t%s\n" id (String.concat " " obs)
     | _ -> ())
